@@ -116,3 +116,84 @@ func ValString(atoms []string, m map[string]bool) string {
 	}
 	return strings.Join(parts, " && ")
 }
+
+// IntEnv binds canonical integer terms to representative values and
+// canonical boolean atoms to truth values. It decides comparison atoms whose
+// two sides evaluate over the bound terms, integer literals and +/-.
+type IntEnv struct {
+	Ints  map[string]int64
+	Bools map[string]bool
+}
+
+func (env IntEnv) eval(f *Func, e ast.Expr) (int64, bool) {
+	e = ast.Unparen(e)
+	if v, ok := env.Ints[f.Canon(e)]; ok {
+		return v, true
+	}
+	if tv, ok := f.Info().Types[e]; ok && tv.Value != nil {
+		if c := constantInt(tv); c != nil {
+			return *c, true
+		}
+	}
+	switch x := e.(type) {
+	case *ast.BinaryExpr:
+		a, ok1 := env.eval(f, x.X)
+		b, ok2 := env.eval(f, x.Y)
+		if ok1 && ok2 {
+			switch x.Op.String() {
+			case "+":
+				return a + b, true
+			case "-":
+				return a - b, true
+			}
+		}
+	case *ast.Ident:
+		if d := f.UniqueDef(x); d != nil {
+			return env.eval(f, d)
+		}
+	case *ast.CallExpr:
+		// conversion
+		if len(x.Args) == 1 {
+			if tv, ok := f.Info().Types[x.Fun]; ok && tv.IsType() {
+				return env.eval(f, x.Args[0])
+			}
+		}
+	}
+	return 0, false
+}
+
+// Decide implements the valuation.
+func (env IntEnv) Decide() Decide {
+	return func(f *Func, v *flow.Vertex) (bool, bool) {
+		if b, ok := env.Bools[f.AtomCanon(v)]; ok {
+			return b, true
+		}
+		if v.Kind != flow.KCond {
+			return false, false
+		}
+		be, ok := ast.Unparen(v.Node.(ast.Expr)).(*ast.BinaryExpr)
+		if !ok {
+			return false, false
+		}
+		a, ok1 := env.eval(f, be.X)
+		b, ok2 := env.eval(f, be.Y)
+		if !ok1 || !ok2 {
+			return false, false
+		}
+		switch be.Op.String() {
+		case "<":
+			return a < b, true
+		case "<=":
+			return a <= b, true
+		case ">":
+			return a > b, true
+		case ">=":
+			return a >= b, true
+		case "==":
+			return a == b, true
+		case "!=":
+			return a != b, true
+		}
+		return false, false
+	}
+}
